@@ -8,7 +8,8 @@ ASM = "rspirv::binary::assemble"
 
 
 def module(ctx):
-    """two functions: a complete one, and one without definition and parameters whose first block has no label and whose last is empty"""
+    """the three functions of walkx.module (complete; no definition but parameters, an unlabelled and an empty block; definition only)
+    and one without definition and parameters whose first block has no label and whose last is empty"""
     import copy
     from . import evalsum
     m = walkx.module(ctx, True)
@@ -22,7 +23,7 @@ def module(ctx):
     f2[2]["parameters"] = ("list", [])
     f2[2]["blocks"] = ("list", [b1, b2])
     f2[2]["end"] = ("some", walkx.inst("F2_END", "FunctionEnd"))
-    m[2]["functions"] = ("list", [m[2]["functions"][1][0], f2])
+    m[2]["functions"] = ("list", list(m[2]["functions"][1]) + [f2])
     return m
 
 
